@@ -4,7 +4,7 @@
    a node of a later epoch), and while a publish is in flight every lookup as of the request's
    epoch is the same as before the publish started (C11). *)
 From Coq Require Import List Bool NArith.
-From Akd Require Import NodeLabel Hashing Tree Store StoreFacts.
+From Akd Require Import NodeLabel Hashing Tree Store StoreFacts StoreConc.
 Import ListNotations.
 Open Scope N_scope.
 
@@ -23,3 +23,45 @@ Theorem C13_reads_during_publish : forall fuel base E written l,
   view fuel (overlay written base) E l = view fuel base E l.
 Proof. exact view_overlay. Qed.
 Print Assumptions C13_reads_during_publish.
+
+(* ---- readers concurrent with ANY number of publishes, at the granularity of single record writes
+   (StoreConc.v).  [visible base E g]: g is the store at epoch E followed by zero or more whole
+   commits and any part of the next one. *)
+
+(* every fetch "as of E" returns what the store frozen at E returns, or the error of a reader that
+   has fallen two epochs behind *)
+Theorem C13_fetch_frozen_or_error : forall base E g, visible base E g ->
+  forall l, node_at g l E = node_at base l E \/ node_at g l E = SOther.
+Proof. exact visible_agree. Qed.
+Print Assumptions C13_fetch_frozen_or_error.
+
+(* hence ANY request - an arbitrary decision tree over the records it fetches, the i-th fetch seeing
+   its own store - returns exactly what it returns on the frozen store, or fails: never an answer
+   stitched together from two epochs *)
+Theorem C13_request_frozen_or_error : forall (A : Type) (p : prog A) base E stores,
+  (forall i, visible base E (stores i)) ->
+  forall i, exec p E stores i = exec p E (fun _ => base) i \/ exec p E stores i = None.
+Proof. exact @concurrent_request_frozen_or_error. Qed.
+Print Assumptions C13_request_frozen_or_error.
+
+(* the model's tree walk, every fetch of the walk seeing its own store *)
+Theorem C13_view_concurrent : forall fuel base E at_ l,
+  (forall p, visible base E (at_ p)) ->
+  view_v fuel at_ E l = view fuel base E l \/ view_v fuel at_ E l = VErr.
+Proof. exact view_concurrent. Qed.
+Print Assumptions C13_view_concurrent.
+
+(* the reported root hash is the one published for E, or the request errors *)
+Theorem C13_root_hash_concurrent : forall cfg base E g, visible base E g ->
+  root_hash_at cfg g E = root_hash_at cfg base E \/ root_hash_at cfg g E = None.
+Proof. exact root_hash_concurrent. Qed.
+Print Assumptions C13_root_hash_concurrent.
+
+(* the premise is met by the store itself and by partial commits *)
+Example C13_visible_sat : forall base E batch written,
+  (forall r, In r batch -> commit_shape base E r = true) -> incl written batch ->
+  visible base E base /\ visible base E (overlay written base).
+Proof.
+  intros base E batch written Hs Hi. split; [apply visible_base|].
+  exists base, E, batch, written. split; [apply c_base|]. split; [apply N.le_refl|]. split; [exact Hs|]. split; [exact Hi | reflexivity].
+Qed.
